@@ -1,27 +1,50 @@
 (** C16 — BFD sessions follow RFC 5880 and always recover.
-    Property theorems only; each is closed by [exact] of a lemma of Proofs/BFD.v. *)
+    Property theorems only.
+
+    KNOWN FINDING C16/recv-admindown (open): Session.Run feeds the received State
+    into the state machine as an event, so an accepted control packet carrying
+    AdminDown moves the LOCAL session into stateAdminDown, which no generated
+    event leaves.  RFC 5880 6.8.6 and the property demand Down.  The faithful
+    model carries the defect; the full statements are therefore refuted
+    ([…_refuted]) and proved on the complement of the finding ([…_except_known]:
+    histories without an accepted AdminDown packet).  Repairing it breaks
+    router TestDataPlaneRun/bfd_bootstrap_*, so it is recorded, not fixed. *)
 From Coq Require Import List NArith Bool.
 From Scion Require Import Lib.Check Model.BFD Proofs.BFD.
 Import ListNotations.
 Import BFD.
 Local Open Scope N_scope.
 
-(** Every accepted control packet updates the session state as RFC 5880 6.8.6
-    prescribes, for every received state — a received AdminDown gives Down. *)
-Theorem C16_rfc_reception : forall s p,
+(** The full statement: every accepted control packet updates the session
+    state as RFC 5880 6.8.6 prescribes, for every received state. *)
+Definition C16_rfc_reception_statement : Prop := forall s p,
   local s <> AdminDown -> should_discard p = false ->
   local (step s (Recv p)) = rfc_recv (local s) (p_state p).
-Proof. exact step_recv_rfc. Qed.
-Print Assumptions C16_rfc_reception.
 
-Theorem C16_received_admindown_gives_down : forall s p,
-  local s <> AdminDown -> should_discard p = false -> p_state p = AdminDown ->
-  local (step s (Recv p)) = Down.
+Theorem C16_rfc_reception_refuted : ~ C16_rfc_reception_statement.
 Proof.
-  intros s p H D E. rewrite (step_recv_rfc s p H D), E.
-  destruct (local s); try reflexivity. now elim H.
+  intros H. specialize (H (init 0) (mk AdminDown 5 0)).
+  cbn in H. specialize (H ltac:(discriminate) eq_refl). discriminate.
 Qed.
-Print Assumptions C16_received_admindown_gives_down.
+Print Assumptions C16_rfc_reception_refuted.
+
+(** ... and it holds for every received state other than AdminDown. *)
+Theorem C16_rfc_reception_except_known : forall s p,
+  local s <> AdminDown -> should_discard p = false -> p_state p <> AdminDown ->
+  local (step s (Recv p)) = rfc_recv (local s) (p_state p).
+Proof. exact step_recv_rfc. Qed.
+Print Assumptions C16_rfc_reception_except_known.
+
+(** The finding, stated positively: an accepted AdminDown traps the session for
+    every continuation of the history. *)
+Theorem C16_never_trapped_refuted : forall rd p ops,
+  should_discard p = false -> p_state p = AdminDown ->
+  local (run (init rd) (Recv p :: ops)) = AdminDown.
+Proof.
+  intros rd p ops D E. unfold run. cbn [fold_left].
+  apply run_admindown_absorbing. now apply step_recv_admindown.
+Qed.
+Print Assumptions C16_never_trapped_refuted.
 
 (** Detection-timer expiry follows 6.8.4 and always leaves the session Down. *)
 Theorem C16_detection_timeout : forall s,
@@ -30,26 +53,29 @@ Theorem C16_detection_timeout : forall s,
 Proof. intros s H. split; [now apply step_timeout_rfc | now apply timeout_down]. Qed.
 Print Assumptions C16_detection_timeout.
 
-(** No history of received packets and timer expiries leads into a state the
-    session cannot leave (AdminDown is never entered). *)
-Theorem C16_never_trapped : forall rd ops, local (run (init rd) ops) <> AdminDown.
-Proof. intros rd ops. apply run_not_admindown. apply init_not_admindown. Qed.
-Print Assumptions C16_never_trapped.
+(** Without an accepted AdminDown packet no history of received packets and
+    timer expiries leads into a state the session cannot leave. *)
+Theorem C16_never_trapped_except_known : forall rd ops,
+  no_rx_admindown ops = true -> local (run (init rd) ops) <> AdminDown.
+Proof. intros rd ops K. apply run_not_admindown; [apply init_not_admindown|exact K]. Qed.
+Print Assumptions C16_never_trapped_except_known.
 
-(** After any history a session comes Up again once its peer behaves
+(** After any such history a session comes Up again once its peer behaves
     (a peer that restarts sends Down, then Init). *)
-Theorem C16_recovers_after_any_history : forall rd ops my y1 y2,
-  my <> 0 -> y2 <> 0 ->
+Theorem C16_recovers_after_any_history_except_known : forall rd ops my y1 y2,
+  no_rx_admindown ops = true -> my <> 0 -> y2 <> 0 ->
   local (run (init rd) (ops ++ [Recv (mk Down my y1); Recv (mk Init my y2)])) = Up.
 Proof.
-  intros rd ops my y1 y2 Hm Hy. unfold run. rewrite fold_left_app.
-  apply recover_two_packets; try assumption. apply C16_never_trapped.
+  intros rd ops my y1 y2 K Hm Hy. unfold run. rewrite fold_left_app.
+  apply recover_two_packets; try assumption. now apply C16_never_trapped_except_known.
 Qed.
-Print Assumptions C16_recovers_after_any_history.
+Print Assumptions C16_recovers_after_any_history_except_known.
 
-(** Two sessions: after any history of sends, deliveries, losses and timeouts,
-    once the link delivers again (what is in flight arrives, then loss-free
-    exchanges) both are Up after three exchanges and stay Up for ever. *)
+(** Two sessions (full statement, not affected by the finding because scion
+    sessions never emit AdminDown): after any history of sends, deliveries,
+    losses and timeouts, once the link delivers again (what is in flight
+    arrives, then loss-free exchanges) both are Up after three exchanges and
+    stay Up for ever. *)
 Theorem C16_two_sessions_reach_up_and_stay : forall da0 db0 hist n,
   da0 <> 0 -> db0 <> 0 -> (3 <= n)%nat ->
   let p := prun (pinit da0 db0) hist in
@@ -58,15 +84,18 @@ Theorem C16_two_sessions_reach_up_and_stay : forall da0 db0 hist n,
 Proof. exact two_sessions_recover. Qed.
 Print Assumptions C16_two_sessions_reach_up_and_stay.
 
-(** The oracle evaluated on the implementation's observed histories holds on the model. *)
-Theorem C16_oracle_holds_on_model : forall rd ops,
+(** The oracle evaluated on the implementation's observed histories holds on
+    the model outside the known-finding class. *)
+Theorem C16_oracle_holds_on_model_except_known : forall rd ops,
+  no_rx_admindown ops = true ->
   hist_ok (st_code Down) ops (map obs_of (trace (init rd) ops)) = true.
-Proof. intros rd ops. apply (hist_ok_model ops (init rd)). apply init_not_admindown. Qed.
-Print Assumptions C16_oracle_holds_on_model.
+Proof. intros rd ops K. apply (hist_ok_model ops (init rd)); [apply init_not_admindown|exact K]. Qed.
+Print Assumptions C16_oracle_holds_on_model_except_known.
 
 (** Non-vacuity: a concrete lossy history satisfying the hypotheses. *)
 Example C16_example :
   let p := prun (pinit 7 9) [SendA; DropAB; SendB; DelivBA; TimeoutA; SendA; SendA; TimeoutB] in
   let q := prun p (flush p ++ rounds 3) in
-  (local (sa p), local (sb p)) = (Down, Down) /\ (local (sa q), local (sb q)) = (Up, Up).
-Proof. vm_compute. split; reflexivity. Qed.
+  (local (sa p), local (sb p)) = (Down, Down) /\ (local (sa q), local (sb q)) = (Up, Up) /\
+  no_rx_admindown [Recv (mk Down 3 0); Timeout; Recv (mk Up 3 1)] = true.
+Proof. vm_compute. repeat split; reflexivity. Qed.
